@@ -56,6 +56,15 @@ def main() -> None:
     import fcp.encoding as ENC
     import fcp.serde as SER
     gens = {g: importlib.import_module("fcp_" + g) for g in ("dbc", "can_c", "cpp", "nop")}
+    kept_generators = {}
+
+    def generator_object(g):
+        """A new Generator per call, or (knob) the one object this process keeps per plug-in."""
+        if not w.get("keep_generators"):
+            return gens[g].Generator()
+        if g not in kept_generators:
+            kept_generators[g] = gens[g].Generator()
+        return kept_generators[g]
 
     schemas = w["schemas"]
 
@@ -174,7 +183,7 @@ def main() -> None:
                                 blob = bytes(SER.encode(get_reflection_schema().unwrap(), "Fcp", t.reflection()))
                                 items = [{"type": "file", "path": out / "reflection.bin", "contents": blob.hex()}]
                             else:
-                                items = gens[g].Generator().generate(t, {"output": out, "templates": {}, "skels": {}})
+                                items = generator_object(g).generate(t, {"output": out, "templates": {}, "skels": {}})
                             if disk:
                                 # the same generation through GeneratorManager into an output directory that this process
                                 # keeps using for this generator (it may hold files of earlier generations); what counts is
